@@ -135,16 +135,32 @@ def rule_order(ctx: Ctx) -> None:
 
 def rule_idle(ctx: Ctx) -> None:
     dl = ctx.func(f"{RD}._dispatch_loop")
-    calls = [c for c in A.func_calls(dl) if (A.call_name(c) or "") == "self._on_idle"]
-    ctx.floor("C15.3", "_on_idle call sites", len(calls), 1)
-    for c in calls:
-        guard = next((a.test for a in A.ancestors(c) if isinstance(a, ast.If)), None)
-        ctx.check(guard is not None and ast.unparse(guard) == "self._handlers_task_pool.idle", "C15.3",
-                  "idle handlers run only when nothing is being handled", dl, c, "if pool.idle", f"_on_idle is guarded by "
-                  f"'{ast.unparse(guard) if guard is not None else None}'")
-    for fn, m, c in A.call_index(ctx).callers_of(f"{RD}._on_idle"):
-        ctx.check(fn is not None and fn.qualname == f"{RD}._dispatch_loop", "C15.3", "_on_idle is called only from the dispatch loop", fn, c, "ok",
-                  "another caller runs idle handlers")
+    IDLE = "self._handlers_task_pool.idle"
+    # every place an idle handler is invoked (wherever it lives: _on_idle, or the dispatch loop itself) is reached only when the pool is idle
+    sites = []
+    for name, fn in sorted(ctx.repo.methods_of(RD).items()):
+        for node in ast.walk(fn.node):
+            gens = node.generators if isinstance(node, (ast.ListComp, ast.GeneratorExp, ast.SetComp)) else ([node] if isinstance(node, (ast.For, ast.AsyncFor)) else [])
+            for g_ in gens:
+                if A.dotted(g_.iter) == "self._idle_handlers" and isinstance(g_.target, ast.Name):
+                    for c in ast.walk(node):
+                        if isinstance(c, ast.Call) and isinstance(c.func, ast.Name) and c.func.id == g_.target.id:
+                            sites.append((fn, c))
+    ctx.floor("C15.3", "idle handler invocation sites", len(sites), 1)
+
+    def guarded(fn, node, depth=0) -> bool:
+        g_ = ctx.cfg(fn)
+        ns = g_.nodes_for(node)
+        if ns and any(t == IDLE and v for t, v, _ in g_.path_conditions(g_.entry, ns[0])):
+            return True
+        if depth >= 2:
+            return False
+        callers = A.call_index(ctx).callers_of(fn.qualname)
+        return bool(callers) and all(f2 is not None and guarded(f2, c2, depth + 1) for f2, _, c2 in callers)
+    for fn, c in sites:
+        ctx.check(guarded(fn, c), "C15.3", "idle handlers run only when nothing is being handled", fn, c, f"reached only under {IDLE}",
+                  f"an idle handler can be started on a path where '{IDLE}' does not hold (handlers or jobs may still be running)",
+                  key_text="idle handlers only when idle")
     idle = ctx.func(f"{TP}.idle")
     rets_ = [ast.unparse(r.value).replace(" ", "") for r in C.walk_shallow(idle.node) if isinstance(r, ast.Return) and r.value is not None]
     ctx.check(len(rets_) == 1 and rets_[0] in ("len(self._tasks)==0", "notself._tasks", "0==len(self._tasks)", "notlen(self._tasks)"), "C15.3", "idle means no tracked task", idle, idle.node, "len(tasks) == 0",
